@@ -47,7 +47,9 @@ def main():
 
     # ---------------------------------------------------------------- psfandgridconv against its own arguments
     xi1, eta1, lat, lon, cm, chi = [real(n) for n in ('xi1', 'eta1', 'lat', 'lon', 'cm', 'chi')]
-    pre = vell + vprj + [lat.t >= -80, lat.t <= 84, lon.t >= -180, lon.t <= 180]
+    # chi is a (conformal) LATITUDE: strictly between -90 and 90 degrees; xi', eta' are the Gauss-Schreiber coordinates of a point within 30 deg of the central meridian
+    pre = vell + vprj + [lat.t >= -80, lat.t <= 84, lon.t >= -180, lon.t <= 180, chi.t > z3.Q(-157, 100), chi.t < z3.Q(157, 100), cm.t >= -180, cm.t <= 180,
+                         xi1.t >= -2, xi1.t <= 2, eta1.t >= -1, eta1.t <= 1]
     sm2 = dict(rect_radius=sm['rect_radius'], alpha_coeff=sm['alpha_coeff'])
     with E.rebound(cv, **sm2):
         paths = E.explore(lambda: cv.psfandgridconv(xi1, eta1, lat, lon, cm, chi, ell, prj), pre)
@@ -83,6 +85,7 @@ def main():
         ga, gm = A_.ab(g), A_.ab(gmag)
         goal = z3.And(z3.Implies(A_.ab(neg), ga == -gm), z3.Implies(z3.Not(A_.ab(neg)), ga == gm))
         P.oblige('psfandgridconv.gridconv_sign_and_magnitude', 'convert.psfandgridconv', tag, E.prove(goal, H + A_.side, use_axioms=False), strict=True,
+                 goal=z3.And(z3.Implies(neg, g == -gmag), z3.Implies(z3.Not(neg), g == gmag)), hyps=hy,
                  refute=None, note='|gc| = atan|q/p| + atan(|tan chi tan omega|/sqrt(1+tan^2 chi)) in degrees; sign by quadrant')
     # zero on the central meridian: omega = 0 and eta' = 0 (the call sites establish eta' = 0 there) => q = 0 and tan(omega) = 0
     with E.rebound(cv, **sm2):
